@@ -24,6 +24,8 @@ pub fn bindings() -> Vec<(Fmt, Binding)> {
             v.push((f, Binding::Box));
         }
     }
+    v.push((Fmt::Jpeg, Binding::NoTrust));
+    v.push((Fmt::Mp4, Binding::NoTrust));
     v.push((Fmt::Mp4, Binding::MerkleAligned));
     v.push((Fmt::Mp4, Binding::Merkle));
     v
